@@ -45,6 +45,8 @@ class C04(Prop):
                 'kind': rng.choice(['ct', 'ct', 'ct_off'])}
         if rng.random() < 0.2:
             case['more'] = [sig_text(lang.gen_signals(rng, names))]
+        if rng.random() < 0.1:
+            case['useed'] = rng.randrange(1 << 30)
         return case
 
     def judge(self, case):
@@ -53,6 +55,10 @@ class C04(Prop):
         sig = sig_from_json(case['signals'])
         names = sorted(sig)
         text = lang.to_text(f)
+        if case.get('useed') is not None:
+            import random
+            text = lang.unit_text(f, random.Random(case['useed']))       # same durations, unit-suffix notation
+            v.info['class:unit-suffixes'] = 1
         start = max(s[0][0] for s in sig.values())
         end = min(s[-1][0] for s in sig.values())
         if end < start:
